@@ -442,7 +442,7 @@ def units(tier, seed):
         add('expm_pade(q=%d)/2x2/D2,P1' % q, 'h_expm_pade', o={'unit_timeout': 600}, q=q, n=2, D=2, P=1)
     add('iouter/(2,)x(3,)/D3,P2', 'h_iouter', lshape=(2,), rshape=(3,), D=3, P=2)
     add('iouter/(2,)x(2,)/D4,P1', 'h_iouter', lshape=(2,), rshape=(2,), D=4, P=1)
-    for nrm in ('1/100', '1/10', '1/2', '3/2', '2'):
+    for nrm in ('1/100', '1/10', '1/2', '3/2', '2', '3', '8', '30'):
         add('expm_higham_2005/3x3 at 1-norm %s (float-decided)' % nrm, 'h_expm_higham', norm=nrm)
     if tier != 'quick':
         add('expm/2x2/D2,P2', 'h_expm', o={'unit_timeout': 900}, n=2, D=2, P=2)
